@@ -103,7 +103,7 @@ pub fn gen_wb_cfg(rng: &mut Rng) -> WriteBufferConfig {
         max_size_bytes: usize_of(rng, &[0, 1, 72, 73, 74, 146, 150, 219, 300, 500, 1 << 30, u64::MAX]),
         max_deltas: usize_of(rng, &[0, 1, 2, 3, 4, 6, 1 << 30, u64::MAX]),
         backpressure_threshold_bytes: usize_of(rng, &[0, 1, 73, 146, 147, 219, 300, 450, 1 << 40, 1 << 40, u64::MAX]),
-        compression_enabled: false,
+        compression_enabled: rng.chance(1, 2),
     }
 }
 
@@ -120,6 +120,7 @@ fn count_cfg(out: &mut Out, c: &WriteBufferConfig) {
     out.count(&format!("x:config:max_size_bytes={}", b(c.max_size_bytes)));
     out.count(&format!("x:config:max_deltas={}", b(c.max_deltas)));
     out.count(&format!("x:config:backpressure={}", b(c.backpressure_threshold_bytes)));
+    out.count(&format!("x:config:compression_enabled={}", c.compression_enabled));
     let iv = c.flush_interval;
     out.count(&format!("x:config:flush_interval={}", if iv.is_zero() { "0" } else if iv == Duration::MAX { "max" } else if iv.subsec_nanos() % 1_000_000 != 0 { "sub-ms" } else if iv >= Duration::from_secs(3600) { "never" } else { "ms" }));
 }
@@ -689,6 +690,345 @@ async fn legacy_workers_case(out: &mut Out, rng: &mut Rng) {
     out.case(&format!("legacy:{:?}:{:?}:{}", cfg, faults, t), true);
 }
 
+
+// ---------------------------------------------------------------------------------------------
+// T5: a node over several lives (model M4c, `lean/RedisVerif/Model/StreamNode.lean`)
+// ---------------------------------------------------------------------------------------------
+
+struct LifeCfg {
+    wb: WriteBufferConfig,
+    zero: bool,
+    compaction: Option<CompactionCfgSerde>,
+    faults: Vec<(u64, Fault)>,
+}
+
+fn gen_life(rng: &mut Rng) -> LifeCfg {
+    let never = Duration::from_secs(3600);
+    let mut wb = gen_wb_cfg(rng);
+    let zero = rng.chance(1, 5);
+    wb.flush_interval = if zero { Duration::ZERO } else { never };
+    if wb.backpressure_threshold_bytes < 300 && rng.chance(2, 3) {
+        wb.backpressure_threshold_bytes = 1 << 40;
+    }
+    // the compaction worker only next to a tick-free pipeline (its passes are a minute of virtual time apart)
+    let compaction = if !zero && rng.chance(1, 2) {
+        Some(CompactionCfgSerde {
+            max_segments: rng.range(1, 4) as usize,
+            min_segments_to_compact: rng.range(1, 3) as usize,
+            max_segments_per_compaction: rng.range(2, 6) as usize,
+            target_segment_size: *rng.pick(&[1usize << 20, 1 << 21]), // ARUN carries no segment sizes: every segment is a candidate on both sides
+            tombstone_ttl: Duration::MAX,
+            compression_enabled: rng.chance(1, 2),
+            ..CompactionCfgSerde::test()
+        })
+    } else {
+        None
+    };
+    let nf = if zero { 0 } else { rng.below(3) };
+    let faults = (0..nf).map(|_| (rng.below(14), if rng.chance(1, 3) { Fault::Partial } else { Fault::Fail })).collect::<std::collections::BTreeMap<u64, Fault>>().into_iter().collect();
+    LifeCfg { wb, zero, compaction, faults }
+}
+
+fn life_params(l: &LifeCfg, cap: u64, now: u64) -> String {
+    let c = &l.wb;
+    let mut s = format!("{} {} {} {} {} {} {}", c.flush_interval.as_nanos(), c.max_size_bytes, c.max_deltas, c.backpressure_threshold_bytes, cap, now, l.faults.len());
+    for (i, f) in &l.faults {
+        s.push_str(&format!(" {} {}", i, f.name()));
+    }
+    s
+}
+
+/// Several processes one after the other on one store: every life runs the REAL
+/// `start_workers` pipeline (in some lives with the compaction worker next to it) on a
+/// snapshotting `FaultStore`; a life ends by a clean shutdown, by the end of the observation, or by
+/// the death of the process at a store call (the store image of that call boundary — inside a
+/// `put`: with the torn object); the next life starts the real workers on what is left, with
+/// another configuration.  Model: `StreamNode.runLives` (ops ALIFE / AHIST).
+/// Oracle (real code only): what recovery returned at a quiescent point of any life is absorbed by
+/// what recovery returns at every later point of the history (nothing confirmed is lost by a
+/// crash, a restart, a compaction pass or a later failed flush); recovery of every image succeeds.
+async fn lives_case(out: &mut Out, rng: &mut Rng, cap: u64) {
+    use std::collections::{BTreeMap, HashMap};
+    let rid = 1;
+    let nlives = rng.range(2, 4) as usize;
+    let lives: Vec<LifeCfg> = (0..nlives).map(|_| gen_life(rng)).collect();
+    let mut image: BTreeMap<String, Vec<u8>> = BTreeMap::new();
+    // (description, fold of the recovery at that point) of every point that is in the past of the history
+    let mut past: Vec<(String, HashMap<String, redis_sim::replication::state::ReplicatedValue>)> = Vec::new();
+    let mut t = 500u64;
+    let mut text = String::new();
+    for (li, life) in lives.iter().enumerate() {
+        count_cfg(out, &life.wb);
+        let mut cfg = streaming_cfg(&life.wb);
+        if let Some(c) = &life.compaction {
+            cfg.compaction = c.clone();
+        }
+        let store = FaultStore::from_image(&image);
+        let integ = StreamingIntegration::with_store(Arc::new(store.clone()), cfg.clone(), rid);
+        let (handles, sender) = match integ.start_workers().await {
+            Ok(x) => x,
+            Err(e) => {
+                out.violation("C12:lives:restart-failed", &format!("start_workers failed on the store image an earlier process left: {}", e), json!({"workload": text}));
+                return;
+            }
+        };
+        let mut handles = Some(handles);
+        {
+            let mut g = store.inner.lock().unwrap();
+            g.calls = 0;
+            g.snapshots.clear();
+            g.log.clear();
+            g.log_tags.clear();
+            g.record = true;
+            g.faults = life.faults.iter().cloned().collect();
+        }
+        if li == 0 {
+            let l = xnew_line(rid, &life.wb, cap, 0, &life.faults);
+            text.push_str(&l);
+            out.op(l, "ok".into());
+        }
+        let aline = |sz: u64| {
+            let c = life.compaction.as_ref().expect("compaction life");
+            format!("ACOMPACT {} {} {} 0 {} {} {}", c.target_segment_size, c.min_segments_to_compact, c.max_segments_per_compaction, c.tombstone_ttl.as_millis(), c.max_segments, sz)
+        };
+        let newest = |store: &FaultStore| store.image().get(&format!("{}/manifest.json", PREFIX)).and_then(|b| serde_json::from_slice::<Manifest>(b).ok()).and_then(|m| m.segments.iter().max_by_key(|s| s.id).map(|s| s.size_bytes)).unwrap_or(0);
+        // observations of this life: (calls, description, fold)
+        let mut obs: Vec<(u64, String, HashMap<String, redis_sim::replication::state::ReplicatedValue>)> = Vec::new();
+        if life.compaction.is_some() {
+            // the worker's first pass runs at once
+            tokio::time::sleep(Duration::from_millis(1)).await;
+            let l = aline(newest(&store));
+            text.push_str(&format!(";{}", l));
+            out.op(l, format!("calls={} segs={}", store.calls(), segs_of(&store)));
+        }
+        let nb = rng.range(1, 4);
+        for bi in 0..nb {
+            let n = rng.below(4);
+            for _ in 0..n {
+                t += 1;
+                // few keys, two replicas: merges inside and across segments and lives
+                let u = lww_upd(&format!("k{}", t % 5), format!("v{}", t).as_bytes(), t / 2, 1 + t % 2, t % 7 == 0);
+                let r = sender.send(delta_of(&u, rid));
+                let line = sd_line("ASEND", &u);
+                text.push_str(&format!(";{}", line));
+                out.op(line, if r.is_ok() { "ok".into() } else { "err disconnected".to_string() });
+            }
+            tokio::time::sleep(Duration::from_millis(25)).await;
+            out.op("ADRAIN".into(), "ok".into());
+            if life.zero {
+                out.op("ATICK".into(), "ok".into());
+            }
+            out.op("ARUN".into(), format!("calls={} segs={}", store.calls(), segs_of(&store)));
+            text.push_str(";PHASE");
+            if let Ok(r) = recover_image(&store.image(), rid).await {
+                obs.push((store.calls(), format!("life {} after batch {}", li, bi), crate::c11::fold_recovered(&r)));
+            }
+            if life.compaction.is_some() && rng.chance(1, 2) {
+                // one check interval of virtual time: the worker's next pass
+                tokio::time::sleep(Duration::from_secs(60)).await;
+                let l = aline(newest(&store));
+                text.push_str(&format!(";{}", l));
+                out.op(l, format!("calls={} segs={}", store.calls(), segs_of(&store)));
+                out.count("x:lives:compaction-pass");
+                if let Ok(r) = recover_image(&store.image(), rid).await {
+                    obs.push((store.calls(), format!("life {} after a compaction pass", li), crate::c11::fold_recovered(&r)));
+                }
+            }
+        }
+        // how this life ends
+        let calls = store.calls();
+        let kind = if li + 1 == lives.len() { 1 } else { rng.below(3) };
+        let mut crash: Option<(u64, bool)> = None;
+        match kind {
+            0 if calls > 0 => {
+                let c = rng.below(calls);
+                let g = store.inner.lock().unwrap();
+                let snap = g.snapshots[c as usize].clone();
+                drop(g);
+                let torn = snap.torn.is_some() && rng.chance(1, 2);
+                image = snap.before.clone();
+                if torn {
+                    let (k, d) = snap.torn.clone().expect("torn");
+                    image.insert(k, d);
+                }
+                crash = Some((c, torn));
+                out.count(if torn { "x:lives:end:death-inside-put" } else { "x:lives:end:death-at-call" });
+            }
+            2 => {
+                if let Some(h) = handles.take() {
+                    h.shutdown().await;
+                }
+                out.op("ASTOPBRIDGE".into(), "ok".into());
+                out.op("AREQSHUTDOWN".into(), "ok".into());
+                out.op("ARUN".into(), format!("calls={} segs={}", store.calls(), segs_of(&store)));
+                text.push_str(";SHUTDOWN");
+                image = store.image();
+                out.count("x:lives:end:clean-shutdown");
+            }
+            _ => {
+                image = store.image();
+                out.count("x:lives:end:observation-ends");
+            }
+        }
+        for (c, what, fold) in obs {
+            if crash.map_or(true, |(cc, _)| c <= cc) {
+                past.push((what, fold));
+            }
+        }
+        // what a process starting now would recover
+        let rec = recover_image(&image, rid).await;
+        match &rec {
+            Err(e) => {
+                out.violation("C12:lives:recovery-fails", &format!("recovery fails on the store image life {} left ({:?}): {}", li, crash, e), json!({"workload": text, "crash": format!("{:?}", crash)}));
+            }
+            Ok(r) => {
+                let now = crate::c11::fold_recovered(r);
+                for (what, old) in &past {
+                    for (k, v) in old {
+                        let absorbed = now.get(k).map_or(false, |cur| MRv::from_real(&cur.merge(v)).show() == MRv::from_real(cur).show());
+                        if !absorbed {
+                            out.violation("C12:lives:confirmed-update-lost-later",
+                                &format!("key {} as recovered at '{}' is not absorbed by what recovery returns after life {} ended ({:?})", k, what, li, crash),
+                                json!({"workload": text, "crash": format!("{:?}", crash), "key": k}));
+                        }
+                    }
+                }
+            }
+        }
+        if let Some(h) = handles.take() {
+            h.shutdown().await;
+        }
+        if li + 1 < lives.len() {
+            let next = &lives[li + 1];
+            let l = format!("ALIFE {} {} {}", crash.map_or("-".to_string(), |(c, _)| c.to_string()), crash.map_or(0, |(_, tn)| tn as u8), life_params(next, cap, 0));
+            text.push_str(&format!(";{}", l));
+            let segs = match image.get(&format!("{}/manifest.json", PREFIX)) {
+                None => "[]".to_string(),
+                Some(b) => match serde_json::from_slice::<Manifest>(b) {
+                    Err(_) => "unparsable".into(),
+                    Ok(m) => format!("[{}]", m.segments.iter().map(|s| format!("{}:{}", s.id, s.record_count)).collect::<Vec<_>>().join(",")),
+                },
+            };
+            out.op(l, format!("ok replay=1 segs={}", segs));
+        } else {
+            out.op("AREC".into(), show_rec(&rec));
+            let fold = match &rec {
+                Ok(r) => crate::c11::show_upds(&crate::c11::sorted_map(&crate::c11::fold_recovered(r))),
+                Err(_) => "recovery-failed".into(),
+            };
+            out.op("AHIST".into(), format!("fold {} exact=1", fold));
+        }
+    }
+    out.count(&format!("x:case:lives:{}", nlives));
+    out.case(&text, true);
+    out.sample(json!({"workload": text}));
+}
+
+
+// ---------------------------------------------------------------------------------------------
+// T6: `StreamingConfig.prefix` is configuration; objects of other prefixes are none of our business
+// ---------------------------------------------------------------------------------------------
+
+/// one small workload (flushes — one with a failing put —, a compaction, a checkpoint object through
+/// `CheckpointManager`, recovery) on a store that already holds the objects `foreign`, under `prefix`
+async fn prefix_run(prefix: &str, ups: &[Upd], fail_at: u64, foreign: &[(String, Vec<u8>)]) -> Result<(std::collections::BTreeMap<String, Vec<u8>>, String), String> {
+    use redis_sim::streaming::{Compactor, ManifestManager, RecoveryManager};
+    let mut img = std::collections::BTreeMap::new();
+    for (k, v) in foreign {
+        img.insert(k.clone(), v.clone());
+    }
+    let store = FaultStore::from_image(&img);
+    let mut pers = StreamingPersistence::with_clock(Arc::new(store.clone()), prefix.to_string(), 1, crate::c12::wb_config(), SimulatedClock::new(0)).await.map_err(|e| format!("construct: {}", e))?;
+    {
+        let mut g = store.inner.lock().unwrap();
+        g.calls = 0;
+        g.faults = [(fail_at, Fault::Fail)].into_iter().collect();
+    }
+    let mut trace = String::new();
+    for (i, u) in ups.iter().enumerate() {
+        pers.push(delta_of(u, 1)).map_err(|e| format!("push: {}", e))?;
+        if i % 2 == 1 || i + 1 == ups.len() {
+            let r = pers.flush().await;
+            trace.push_str(&format!("flush={} pending={};", r.is_ok(), pers.pending_count()));
+        }
+    }
+    let r = pers.flush().await;
+    trace.push_str(&format!("flush={} pending={};", r.is_ok(), pers.pending_count()));
+    let cfg = redis_sim::streaming::CompactionConfig { target_segment_size: 1 << 20, max_segments: 0, min_segments_to_compact: 2, max_segments_per_compaction: 8, tombstone_ttl: Duration::MAX, compression_enabled: false };
+    let mut comp = Compactor::with_time_source(Arc::new(store.clone()), prefix.to_string(), ManifestManager::new(store.clone(), prefix), cfg, crate::c12::FixedTime(0));
+    let cr = comp.compact().await;
+    trace.push_str(&format!("compact={};", match &cr { Ok(c) => format!("ok removed={} created={}", c.segments_removed.len(), c.segment_created.is_some()), Err(e) => format!("err {}", e) }));
+    let rec = RecoveryManager::new(store.clone(), prefix, 1).recover().await;
+    trace.push_str(&format!("recover={};", match &rec { Ok(r) => crate::c11::show_upds(&crate::c11::sorted_map(&crate::c11::fold_recovered(r))), Err(e) => format!("err {}", e) }));
+    Ok((store.image(), trace))
+}
+
+async fn prefix_case(out: &mut Out, rng: &mut Rng) {
+    let prefixes = ["", "a", "a/b", "é", "p/segments", "manifest.json", "p/", " sp aced ", "p2", "pp", "P", "0", "x/../y"];
+    let long = "l".repeat(200);
+    let pfx: &str = if rng.chance(1, 12) { &long } else { *rng.pick(&prefixes) };
+    let n = rng.range(2, 6);
+    let ups: Vec<Upd> = (0..n).map(|i| lww_upd(&format!("k{}", i % 3), format!("v{}", i).as_bytes(), 10 + i, 1 + i % 2, i == 3)).collect();
+    let fail_at = rng.below(9);
+    // objects of OTHER prefixes that share a string prefix with ours (another node on the same bucket)
+    let foreign: Vec<(String, Vec<u8>)> = vec![
+        (format!("{}2/manifest.json", pfx), b"{\"foreign\":1}".to_vec()),
+        (format!("{}2/segments/segment-00000000.seg", pfx), b"foreign-segment".to_vec()),
+        (format!("{}x/segments/segment-00000001.seg", pfx), b"foreign-segment-1".to_vec()),
+        (format!("q{}/manifest.json", pfx), b"foreign-manifest".to_vec()),
+    ];
+    let base = prefix_run(PREFIX, &ups, fail_at, &[]).await;
+    let other = prefix_run(pfx, &ups, fail_at, &foreign).await;
+    out.count(&format!("x:prefix:{}", if pfx.is_empty() { "empty" } else if pfx.len() > 100 { "long" } else if pfx.contains('/') { "with-slash" } else if !pfx.is_ascii() { "non-ascii" } else { "plain" }));
+    let replay = json!({"prefix": pfx, "updates": ups.iter().map(|u| sd_line("PUSH", u)).collect::<Vec<_>>(), "failing_call": fail_at});
+    match (base, other) {
+        (Ok((img_p, tr_p)), Ok((img_o, tr_o))) => {
+            if tr_p != tr_o {
+                out.violation("C12:config:prefix-dependent-behaviour", &format!("the same workload behaves differently under prefix {:?} than under {:?}: {} vs {}", pfx, PREFIX, tr_o, tr_p), replay.clone());
+            }
+            // foreign objects untouched
+            for (k, v) in &foreign {
+                if img_o.get(k) != Some(v) {
+                    out.violation("C12:config:foreign-prefix-object-touched", &format!("an object of another prefix ({:?}) was changed or deleted by a workload under prefix {:?}", k, pfx), replay.clone());
+                }
+            }
+            // object for object the same image, prefix replaced
+            let rel = |img: &std::collections::BTreeMap<String, Vec<u8>>, p: &str, skip: &[(String, Vec<u8>)]| -> std::collections::BTreeMap<String, Vec<u8>> {
+                img.iter().filter(|(k, _)| !skip.iter().any(|(f, _)| f == *k)).map(|(k, v)| {
+                    let name = k.strip_prefix(&format!("{}/", p)).map(|s| s.to_string()).unwrap_or_else(|| format!("OUTSIDE:{}", k));
+                    let body = if name == "manifest.json" {
+                        match serde_json::from_slice::<Manifest>(v) {
+                            Ok(mut m) => {
+                                for sg in m.segments.iter_mut() {
+                                    sg.key = sg.key.strip_prefix(&format!("{}/", p)).map(|s| s.to_string()).unwrap_or_else(|| format!("OUTSIDE:{}", sg.key));
+                                }
+                                serde_json::to_vec(&m).unwrap_or_default()
+                            }
+                            Err(_) => b"unparsable".to_vec(),
+                        }
+                    } else {
+                        v.clone()
+                    };
+                    (name, body)
+                }).collect()
+            };
+            let (a, b) = (rel(&img_p, PREFIX, &[]), rel(&img_o, pfx, &foreign));
+            if a != b {
+                let ka: Vec<&String> = a.keys().collect();
+                let kb: Vec<&String> = b.keys().collect();
+                out.violation("C12:config:prefix-dependent-image", &format!("the store image under prefix {:?} is not the image under {:?} with the prefix replaced: objects {:?} vs {:?}", pfx, PREFIX, kb, ka), replay.clone());
+            }
+        }
+        (b, o) => {
+            if b.is_ok() != o.is_ok() {
+                out.violation("C12:config:prefix-dependent-behaviour", &format!("construction succeeds under one of the prefixes {:?} / {:?} only", pfx, PREFIX), replay.clone());
+            }
+        }
+    }
+    out.count("x:case:prefix");
+    out.case(&format!("prefix:{:?}:{}:{}", pfx, n, fail_at), true);
+}
+
 pub async fn run_all(out: &mut Out, rng: &mut Rng, n: u64, paused: bool) {
     let cap = match source_channel_capacity() {
         Some(c) => c,
@@ -708,6 +1048,9 @@ pub async fn run_all(out: &mut Out, rng: &mut Rng, n: u64, paused: bool) {
             if r.chance(1, 3) {
                 write_buffer_case(out, &mut r, false).await;
             }
+            if r.chance(1, 8) {
+                prefix_case(out, &mut r).await;
+            }
         }
     } else {
         for c in ["count-threshold", "backpressure-in-batch", "failed-flush-retried", "interval-zero"] {
@@ -724,6 +1067,10 @@ pub async fn run_all(out: &mut Out, rng: &mut Rng, n: u64, paused: bool) {
             actor_case(out, &mut r, None, cap).await;
             if i % 3 == 0 {
                 legacy_workers_case(out, &mut r).await;
+            }
+            if i % 2 == 0 {
+                let mut r = rng.fork();
+                lives_case(out, &mut r, cap).await;
             }
         }
     }
